@@ -6,12 +6,17 @@ Open Scope N_scope.
 Section C05.
   Variable hstate : Type.
   (** the layer below the cache (handlers), with its own state and log — arbitrary *)
-  Variable compute : hstate -> request -> bool -> fat * hstate * list bytes.
+  Variable compute : hstate -> routed -> bool -> fat * hstate * list bytes.
   Variable cache_on : bool.
   Variable ims_on : bool.
   Variable parse_ims : bytes -> option Z.
   Variable sanitize_ok : request -> bool.
-  Variable prime : request -> request.
+  (** [Extensions::resolve_prime]: what the Prime extensions make of a request — the request with the URI the rewriting
+      Primes gave it, and the internal override URI ("/./...") if a Prime answered with one — arbitrary.  The page is
+      handled, looked up and cached under [lreq q] (the override URI if there is one, else the request's), and the vary
+      rules are those of its path [cpath q], in the arm of [handle_cache] that creates a cache item and in
+      [handle_vary_missing] alike *)
+  Variable prime : request -> routed.
   Variable negotiate : request -> fat -> option (N * bytes).
   (** the vary settings of every path: any number of rules, any header names, any transformations, any defaults *)
   Variable rules_of : bytes -> list rule.
@@ -22,11 +27,13 @@ Section C05.
       sorted for the comparator of [get], non-empty, built with the rules of its page, every stored response
       computed for a request of that page with exactly the stored transformed header list):
       the run completes without panic, the invariant holds afterwards, and every reply is
-      - a stored response that was computed for a request with the *same path and an equal transformed header
-        list*, or the bare 304 that vouches for such a stored response (no handler invocation; since the repair
-        832d735 a 304 is sent only when the entry holds the request's own variant), or
+      - a stored response that was computed for a request *cached under the same path with an equal transformed header
+        list* — the list that the rules of the path the response is cached under (the internal path of a route, else
+        the request's own) make of the request's headers —, or the bare 304 that vouches for such a stored response (no
+        handler invocation; since the repair 832d735 a 304 is sent only when the entry holds the request's own variant), or
       - the response computed now for this very request, labelled with its own transformed header list
-        (exactly one handler invocation). *)
+        (exactly one handler invocation).
+      [variant_of_the_cached_path] below spells [obs_ok] out. *)
   Theorem vary_served_for_equal_tuple : forall ops c hs now,
     InvV hstate compute rules_of c ->
     exists l st' now',
@@ -35,6 +42,30 @@ Section C05.
       InvV hstate compute rules_of (fst st') /\
       Forall2 (obs_ok hstate compute ims_on prime negotiate rules_of) ops l.
   Proof. exact (runV_ok hstate compute cache_on ims_on parse_ims sanitize_ok prime negotiate rules_of dbg). Qed.
+
+  (** what [obs_ok] says of the reply to a request [q] (request + override URI), in terms of the request's own headers and
+      the rules of the path it is cached under: served from the cache = a response computed for a request [q1] cached under
+      the same path whose headers the rules OF THAT PATH transform to the same list as [q]'s (or the 304 vouching for it);
+      computed = the response computed for [q] itself; in both cases the reply is labelled with — its [vary] header is
+      built from — that list *)
+  Theorem variant_of_the_cached_path : forall q rp calls,
+    served_ok hstate compute ims_on negotiate rules_of q rp calls ->
+    let rules := rules_of (cpath q) in
+    let mine := headers_for_request rules (fst q) in
+    (calls = [] /\ exists f q1 hs1 ok1,
+        fst (fst (compute hs1 q1 ok1)) = f /\ cpath q1 = cpath q /\ headers_for_request rules (fst q1) = mine /\
+        ((rp_status rp = 304 /\ rp_body rp = [] /\ rp_headers rp = []) \/ rp = finishV negotiate (fst q) f mine ims_on true))
+    \/ (calls = [q] /\ exists f hs1 ok1 lm cached,
+        fst (fst (compute hs1 q ok1)) = f /\ rp = finishV negotiate (fst q) f mine lm cached).
+  Proof. exact (served_ok_spelled hstate compute ims_on negotiate rules_of). Qed.
+
+  (** the URI that is looked up differs from the request in path and query only: every header value (and the method) the
+      cache layer reads off it is the real request's *)
+  Theorem route_keeps_method_and_headers : forall q,
+    rq_method (lreq q) = rq_method (fst q) /\ rq_headers (lreq q) = rq_headers (fst q) /\
+    (snd q = None -> lreq q = fst q) /\
+    (forall p qu, snd q = Some (p, qu) -> rq_path (lreq q) = p /\ rq_query (lreq q) = qu).
+  Proof. exact lreq_same. Qed.
 
   (** (1) the invariant in plain words, from the empty cache: after every history every variant vector is
       strictly increasing for [Ord for [Header]], hence holds no two entries with equal transformed lists *)
@@ -46,6 +77,21 @@ Section C05.
         StronglySorted (fun p q => cmp_hcoll (snd p) (snd q) = Lt) (vr_resps (ve_var e)) /\
         NoDup (map snd (vr_resps (ve_var e))) /\ vr_resps (ve_var e) <> [].
   Proof. exact (variants_sorted_from_empty hstate compute cache_on ims_on parse_ims sanitize_ok prime negotiate rules_of dbg). Qed.
+
+  (** (1') ... and every cache item is built with the rules of the path it is stored under — for a page served through an
+      internal route: the internal path, whichever of the two sites ([handle_cache]'s miss arm, [handle_vary_missing])
+      created the item —, and every stored list is what those rules make of the headers of a request cached under that path *)
+  Theorem items_built_with_rules_of_their_path : forall ops hs now,
+    exists l st' now',
+      runV hstate compute cache_on ims_on parse_ims sanitize_ok prime negotiate rules_of dbg ([], hs) now ops = Ok l /\
+      runV_state hstate compute cache_on ims_on parse_ims sanitize_ok prime negotiate rules_of dbg ([], hs) now ops = Ok (st', now') /\
+      forall k e, pc_find k (fst st') = Some e ->
+        vr_refs (ve_var e) = rules_of (kpath k) /\
+        forall f hc, In (f, hc) (vr_resps (ve_var e)) ->
+          map fst hc = map ru_name (rules_of (kpath k)) /\
+          exists q1 hs1 ok1, fst (fst (compute hs1 q1 ok1)) = f /\ cpath q1 = kpath k /\
+                             hc = headers_for_request (rules_of (kpath k)) (fst q1).
+  Proof. exact (entries_of_their_path hstate compute cache_on ims_on parse_ims sanitize_ok prime negotiate rules_of dbg). Qed.
 
   (** (2) the vector is a finite map *transformed header list -> response*: on a sorted vector
       [get_by_request] returns the stored response whose list equals the request's, or — when there is
@@ -103,17 +149,31 @@ Section C05.
     (forall v, header_get (ru_name ref) r = Some v -> to_str_ok v = true -> header_for ref r = (ru_name ref, ru_xf ref v)).
   Proof. exact default_applied_lemma. Qed.
 
-  (** (5) every reply the theorems above speak of has the form [finishV r f (own_tuple r) ..]; if its body is
-      not empty its [vary] header is exactly "accept-encoding, range" followed by ", <name>" for each rule of
-      the page in rule order; an empty body gets no [vary] header from the cache layer *)
-  Theorem vary_header_eq : forall r f lm cached,
-    let rp := finishV negotiate r f (own_tuple rules_of r) lm cached in
+  (** (5) every reply the theorems above speak of has the form [finishV r f (own_tuple lr) ..] ([r]: the request, [lr]:
+      the URI it is cached under); if its body is not empty its [vary] header is exactly "accept-encoding, range" followed
+      by ", <name>" for each rule of the path of [lr] in rule order — each rule header, whatever its name: also one that
+      is equal to, a piece of or an extension of "accept-encoding" / "range" (a rule on [range] itself is listed again:
+      the code does not merge, the property asks for the fixed part plus each rule header) —; an empty body gets no [vary]
+      header from the cache layer *)
+  Theorem vary_header_eq : forall r lr f lm cached,
+    let rp := finishV negotiate r f (own_tuple rules_of lr) lm cached in
     (rp_body rp <> [] ->
      assoc (B "vary") (rp_headers rp)
-     = Some (B "accept-encoding, range" ++ concat (map (fun ru => B ", " ++ ru_name ru) (rules_of (rq_path r)))))
+     = Some (B "accept-encoding, range" ++ concat (map (fun ru => B ", " ++ ru_name ru) (rules_of (rq_path lr)))))
     /\ (rp_body rp = [] -> assoc (B "vary") (rp_headers rp)
                            = match negotiate r f with Some _ => None | None => assoc (B "vary") (f_headers f) end).
   Proof. exact (finishV_vary negotiate rules_of). Qed.
+
+  (** ... in the words of the property ("advertises vary: accept-encoding, range plus each rule header"): the value starts
+      with the fixed part, and every rule of the page is a whole element of the comma-separated list that follows: its
+      name stands between ", " and the end of the value or the next ", " *)
+  Theorem vary_lists_every_rule_header : forall r lr f lm cached ru,
+    let rp := finishV negotiate r f (own_tuple rules_of lr) lm cached in
+    rp_body rp <> [] -> In ru (rules_of (rq_path lr)) ->
+    exists before after,
+      assoc (B "vary") (rp_headers rp) = Some (B "accept-encoding, range" ++ before ++ B ", " ++ ru_name ru ++ after) /\
+      (after = [] \/ exists rest, after = B ", " ++ rest).
+  Proof. exact (finishV_lists_rule negotiate rules_of). Qed.
 
   (** (6) the position of a missing variant is searched before the await on the layer below.  After the
       repair of [handle_vary_missing] the second half of a request may run against *any* cache that
@@ -132,43 +192,46 @@ End C05.
 (** ---- connection with C03 / C04 ---- *)
 Section C05_C03.
   Variable hstate : Type.
-  Variable compute : hstate -> request -> bool -> fat * hstate * list bytes.
+  Variable compute : hstate -> routed -> bool -> fat * hstate * list bytes.
   Variable cache_on : bool.
   Variable ims_on : bool.
   Variable parse_ims : bytes -> option Z.
   Variable sanitize_ok : request -> bool.
-  Variable prime : request -> request.
+  Variable prime : request -> routed.
   Variable negotiate : request -> fat -> option (N * bytes).
   Variable rules_of : bytes -> list rule.
   Variable dbg : bool.
   (** handlers set no [vary] header of their own (Model/CacheX.v appends the cache's header, the code replaces) *)
-  Hypothesis Hnovary : forall hs r ok, assoc (B "vary") (f_headers (fst (fst (compute hs r ok)))) = None.
+  Hypothesis Hnovary : forall hs q ok, assoc (B "vary") (f_headers (fst (fst (compute hs q ok)))) = None.
 
   (** the server with sorted variant vectors and binary search (Model/Vary.v) and the server of Model/CacheX.v
       (C03/C04's model of the merged code — all repairs on —: variants as an association list, first match),
-      instantiated with [vary_tuple := transformed values of the page's rules], [vary_header := the header [get_header]
-      builds], plain responses (no stream, no filler bytes), the default status filter, no internal override URI and
-      the default redirect in [clear_page], produce the same observations for every history from related states; so
-      every theorem of C03/C04 about Model/CacheX.v holds of the vector server *)
+      instantiated with the two halves of [prime] as its rewriting Primes and its override URI, [vary_tuple := transformed
+      values of the rules of the URI that is looked up], [vary_header := the header [get_header] builds], plain responses
+      (no stream, no filler bytes), the default status filter and the default redirect in [clear_page], produce the same
+      observations for every history from related states — internal routes included —; so every theorem of C03/C04
+      about Model/CacheX.v holds of the vector server *)
   Theorem vector_refines_assoc_list : forall ops cV c hs now,
     InvV hstate compute rules_of cV -> cache_rel rules_of cV c ->
     exists l,
       runV hstate compute cache_on ims_on parse_ims sanitize_ok prime negotiate rules_of dbg (cV, hs) now ops = Ok l /\
       map (fun oc => obx_of (fst oc)) l
       = runX hstate (computeX hstate compute) cache_on ims_on true true true true true true status_filter_drop parse_ims
-             sanitize_ok prime no_override (negotiateX negotiate) (vary_tupleX rules_of) (vary_headerX rules_of)
+             sanitize_ok (primeX prime) (overrideX prime) (negotiateX negotiate) (vary_tupleX rules_of) (vary_headerX rules_of)
              redirect_target (c, hs) now (map opx_of ops).
   Proof. exact (run_rel hstate compute cache_on ims_on parse_ims sanitize_ok prime negotiate rules_of dbg Hnovary). Qed.
 
-  (** C03's handler contract with the vary tuple made concrete *)
-  Variable cf : request -> bool -> fat.
-  Hypothesis Hpure : forall hs r ok, fst (fst (compute hs r ok)) = cf r ok.
-  Hypothesis contract : forall r r',
-    get_or_head (rq_method r) = true -> get_or_head (rq_method r') = true ->
-    vary_tuple_of rules_of r = vary_tuple_of rules_of r' -> rq_path r = rq_path r' ->
-    (qm (cf r true) = true -> path_query r = path_query r') ->
-    cf r true = cf r' true.
-  Hypothesis Herr : forall r, f_spref (cf r false) = SP_NONE.
+  (** C03's handler contract with the vary tuple made concrete: the response depends on the request only through the
+      method class, the URI it is cached under (path; query if the response says the query matters) and the list the
+      rules of that path make of its headers — for an internal route: not on the page it is served for *)
+  Variable cf : routed -> bool -> fat.
+  Hypothesis Hpure : forall hs q ok, fst (fst (compute hs q ok)) = cf q ok.
+  Hypothesis contract : forall q q',
+    get_or_head (rq_method (fst q)) = true -> get_or_head (rq_method (fst q')) = true ->
+    vary_tuple_of rules_of (lreq q) = vary_tuple_of rules_of (lreq q') -> cpath q = cpath q' ->
+    (qm (cf q true) = true -> path_query (lreq q) = path_query (lreq q')) ->
+    cf q true = cf q' true.
+  Hypothesis Herr : forall q, f_spref (cf q false) = SP_NONE.
 
   (** ... in particular C03's transparency: a handler whose response depends on the request only through
       method class, path, (query) and the *transformed* header values gets, from the caching server with
@@ -176,7 +239,7 @@ Section C05_C03.
       transformed values, for every history.  (Since the repair 92a9cd2 — a query-dependent variant does not join an
       entry keyed by the path alone — without the earlier premise that query-dependence is uniform per path.) *)
   Theorem vary_cache_transparent : forall ops hs hsU now,
-    Forall (op_no_ims ims_on prime) ops ->
+    Forall (op_no_ims ims_on (primeX prime)) ops ->
     exists l lU,
       runV hstate compute true ims_on parse_ims sanitize_ok prime negotiate rules_of dbg ([], hs) now ops = Ok l /\
       runV hstate compute false ims_on parse_ims sanitize_ok prime negotiate rules_of dbg ([], hsU) now ops = Ok lU /\
@@ -190,12 +253,12 @@ End C05_C03.
 (** ---- (5) on the wire: what [SendKind::send] leaves of the [vary] header ---- *)
 Section C05_wire.
   Variable hstate : Type.
-  Variable compute : hstate -> request -> bool -> fat * hstate * list bytes.
+  Variable compute : hstate -> routed -> bool -> fat * hstate * list bytes.
   Variable cache_on : bool.
   Variable ims_on : bool.
   Variable parse_ims : bytes -> option Z.
   Variable sanitize_ok : request -> bool.
-  Variable prime : request -> request.
+  Variable prime : request -> routed.
   Variable negotiate : request -> fat -> option (N * bytes).
   Variable rules_of : bytes -> list rule.
   Variable dbg : bool.
@@ -206,19 +269,20 @@ Section C05_wire.
   (** for every history from every cache state that satisfies the invariant, whatever the sanitize verdict and
       the requested range of each request: every response [send] (as repaired) passes to the connection with a
       non-empty body — the reply of [handle_cache], a range cut out of it, or the 416 page that replaces it —
-      carries [vary: accept-encoding, range, <the page's rule headers in rule order>], provided the Package
+      carries [vary: accept-encoding, range, <the rule headers, in rule order, of the path the page is cached under>]
+      (for an internal route: of the internal path — since kvarn 100c33a also on the 416 page), provided the Package
       extensions leave [vary] alone.  A HEAD request gets the same head (the body is withheld after it). *)
   Theorem wire_vary_advertised : forall ops c hs now,
     InvV hstate compute rules_of c ->
     (forall r hs0, assoc (B "vary") (package r hs0) = assoc (B "vary") hs0) ->
     exists l,
       runV hstate compute cache_on ims_on parse_ims sanitize_ok prime negotiate rules_of dbg (c, hs) now ops = Ok l /\
-      Forall2 (fun o (oc : obs * list request) =>
+      Forall2 (fun o (oc : obs * list routed) =>
                  match o, fst oc with
                  | OReq r0, ObReply rp _ =>
-                     forall san w, send_v rules_of package err416_body true (prime r0) san rp = Ok w -> w_body w <> [] ->
+                     forall san w, send_v rules_of package err416_body true true (prime r0) san rp = Ok w -> w_body w <> [] ->
                        assoc (B "vary") (w_headers w)
-                       = Some (B "accept-encoding, range" ++ concat (map (fun ru => B ", " ++ ru_name ru) (rules_of (rq_path (prime r0)))))
+                       = Some (B "accept-encoding, range" ++ concat (map (fun ru => B ", " ++ ru_name ru) (rules_of (cpath (prime r0)))))
                  | _, _ => True
                  end) ops l.
   Proof. exact (wire_vary_run hstate compute cache_on ims_on parse_ims sanitize_ok prime negotiate rules_of dbg package err416_body). Qed.
@@ -226,9 +290,9 @@ Section C05_wire.
   (** when [send] does not replace the response by the 416 page (a 304 never is: repair 9ae9b1a; the range is
       applied to the body [send] keeps: none after a 1xx / 204 / 304 head), the [vary] header on the wire is the one
       [handle_cache] set (repaired or not), and a non-empty body on the wire comes from a non-empty body *)
-  Theorem send_keeps_vary : forall fixed r san rp w,
+  Theorem send_keeps_vary : forall fixed fix_ov q san rp w,
     (forall r' hs0, assoc (B "vary") (package r' hs0) = assoc (B "vary") hs0) ->
-    send_v rules_of package err416_body fixed r san rp = Ok w ->
+    send_v rules_of package err416_body fixed fix_ov q san rp = Ok w ->
     ~ (exists rg e, san = Some rg /\ (rp_status rp =? 304) = false /\
                     apply_range true rg (rp_status rp) (send_body rp) = Err e) ->
     assoc (B "vary") (w_headers w) = assoc (B "vary") (rp_headers rp) /\ (w_body w <> [] -> rp_body rp <> []).
@@ -237,10 +301,10 @@ Section C05_wire.
   (** a 304 Not Modified goes out as it is — head only, its headers passed to the Package extensions — whatever the
       [range] header of the request says (repair 9ae9b1a: before, the range was cut out of its empty body and the
       client got the 416 page) *)
-  Theorem wire_not_modified_as_is : forall fixed r san rp,
+  Theorem wire_not_modified_as_is : forall fixed fix_ov q san rp,
     rp_status rp = 304 ->
-    send_v rules_of package err416_body fixed r san rp
-    = Ok (mkW 304 (package r (rp_headers rp)) [] (rp_last_modified rp)).
+    send_v rules_of package err416_body fixed fix_ov q san rp
+    = Ok (mkW 304 (package (fst q) (rp_headers rp)) [] (rp_last_modified rp)).
   Proof. exact (send_not_modified rules_of package err416_body). Qed.
 
   (** ---- (7) If-Modified-Since.  Since the repair 832d735 the 304 needs both a fresh date for the cache entry — an
@@ -250,14 +314,14 @@ Section C05_wire.
       entry runs the handler exactly once and gets the response computed for itself ... ---- *)
   Theorem not_modified_only_for_stored_variant : forall c hs now r0 k e c1,
     InvV hstate compute rules_of c ->
-    cache_on = true /\ ims_on = true /\ vlookup (prime r0) c now = ((k, Some e), c1) /\
-    sanitize_ok r0 = true /\ get_or_head (rq_method (prime r0)) = true /\
-    (exists v t, header (B "if-modified-since") (prime r0) = Some v /\ parse_ims v = Some t /\ ims_fresh t (ve_created e) = true) ->
-    (forall p, vr_get_by_request (ve_var e) (prime r0) = Ok (Hit p) ->
+    cache_on = true /\ ims_on = true /\ vlookup (lreq (prime r0)) c now = ((k, Some e), c1) /\
+    sanitize_ok r0 = true /\ get_or_head (rq_method (lreq (prime r0))) = true /\
+    (exists v t, header (B "if-modified-since") (lreq (prime r0)) = Some v /\ parse_ims v = Some t /\ ims_fresh t (ve_created e) = true) ->
+    (forall p, vr_get_by_request (ve_var e) (lreq (prime r0)) = Ok (Hit p) ->
        serveV hstate compute cache_on ims_on parse_ims sanitize_ok prime negotiate rules_of dbg (c, hs) now r0
        = Ok ((c1, hs), {| rp_status := 304; rp_headers := []; rp_body := []; rp_identity := []; rp_last_modified := ims_on;
                           rp_from_cache := true |}, [], [])) /\
-    (forall pos hc, vr_get_by_request (ve_var e) (prime r0) = Ok (Miss pos hc) ->
+    (forall pos hc, vr_get_by_request (ve_var e) (lreq (prime r0)) = Ok (Miss pos hc) ->
        exists st' rp lg,
          serveV hstate compute cache_on ims_on parse_ims sanitize_ok prime negotiate rules_of dbg (c, hs) now r0
          = Ok (st', rp, lg, [prime r0]) /\
@@ -315,18 +379,18 @@ Section C05_wire.
     (forall r c now k e c1 f,
        vlookup r c now = ((k, Some e), c1) -> vr_get_by_request (ve_var e) r = Ok (Hit (f, own_tuple rules_of r)) ->
        holds_copy rules_of c1 r f (ve_created e)) /\
-    (forall c1 hs' now r f lg lm_of cached st' rp lg' calls,
-       may_store cache_on (rq_method r) f = true ->
-       new_and_cache hstate cache_on negotiate rules_of dbg c1 hs' now r f lg lm_of cached = Ok (st', rp, lg', calls) ->
-       holds_copy rules_of (fst st') r f now /\ rp = finishV negotiate r f (own_tuple rules_of r) (lm_of f) cached) /\
-    (forall c hs now r ok k e position headers st' rp lg calls,
-       InvV hstate compute rules_of c -> (k = key_pq r \/ k = key_p r) ->
+    (forall c1 hs' now q f lg lm_of cached st' rp lg' calls,
+       may_store cache_on (rq_method (lreq q)) f = true ->
+       new_and_cache hstate cache_on negotiate rules_of dbg c1 hs' now q f lg lm_of cached = Ok (st', rp, lg', calls) ->
+       holds_copy rules_of (fst st') (lreq q) f now /\ rp = finishV negotiate (fst q) f (own_tuple rules_of (lreq q)) (lm_of f) cached) /\
+    (forall c hs now q ok k e position headers st' rp lg calls,
+       InvV hstate compute rules_of c -> (k = key_pq (lreq q) \/ k = key_p (lreq q)) ->
        pc_find k c = Some e -> vfresh e now = true -> ve_created e <= now ->
-       vr_get_by_request (ve_var e) r = Ok (Miss position headers) ->
-       vary_missing hstate compute cache_on ims_on negotiate rules_of dbg c hs now r ok k position headers = Ok (st', rp, lg, calls) ->
-       rp = finishV negotiate r (fst (fst (compute hs r ok))) (own_tuple rules_of r) ims_on true /\
-       (if variant_accepted cache_on k r (fst (fst (compute hs r ok)))
-        then holds_copy rules_of (fst st') r (fst (fst (compute hs r ok))) (ve_created e)
+       vr_get_by_request (ve_var e) (lreq q) = Ok (Miss position headers) ->
+       vary_missing hstate compute cache_on ims_on negotiate rules_of dbg c hs now q ok k position headers = Ok (st', rp, lg, calls) ->
+       rp = finishV negotiate (fst q) (fst (fst (compute hs q ok))) (own_tuple rules_of (lreq q)) ims_on true /\
+       (if variant_accepted cache_on k (lreq q) (fst (fst (compute hs q ok)))
+        then holds_copy rules_of (fst st') (lreq q) (fst (fst (compute hs q ok))) (ve_created e)
         else fst st' = c)).
   Proof.
     exact (conj (hit_gives_copy hstate compute sanitize_ok prime negotiate rules_of dbg)
@@ -339,13 +403,28 @@ End C05_wire.
     that replaces a response is not empty and carries no [vary] — on the fixture history and for every page *)
 Theorem wire_416_without_vary_v0_refuted :
   (run_vary_wire_v0 wire416_history = wire416_out_v0 /\ run_vary_wire wire416_history = wire416_out) /\
-  (forall rules_of err416_body r, err416_body <> [] ->
+  (forall rules_of err416_body fix_ov q, err416_body <> [] ->
      exists rp w, rp_body rp <> [] /\
-       send_v rules_of (fun _ hs => hs) err416_body false r (Some (Some (100, 201)))
-              (finishV (fun _ _ => None) r (mkFat 200 [] (B "page") SP_FULL true) (own_tuple rules_of r) true true) = Ok w /\
-       rp = finishV (fun _ _ => None) r (mkFat 200 [] (B "page") SP_FULL true) (own_tuple rules_of r) true true /\
+       send_v rules_of (fun _ hs => hs) err416_body false fix_ov q (Some (Some (100, 201)))
+              (finishV (fun _ _ => None) (fst q) (mkFat 200 [] (B "page") SP_FULL true) (own_tuple rules_of (lreq q)) true true) = Ok w /\
+       rp = finishV (fun _ _ => None) (fst q) (mkFat 200 [] (B "page") SP_FULL true) (own_tuple rules_of (lreq q)) true true /\
        w_body w <> [] /\ assoc (B "vary") (w_headers w) = None).
 Proof. exact (conj wire416_v0 send_v0_drops_vary). Qed.
+
+(** (5) after 21f0154 and before the repair 100c33a (model component vary.wire_ov_v0; reproduced on the real code): the 416
+    page that replaces a response of an INTERNAL ROUTE listed the rule headers of the request's own path, not those of the
+    internal path the replaced response was cached, selected and advertised under — on the fixture history (public /hi with
+    a rule on x-pub, routed to /./lang with a rule on accept-language: the 416 said "x-pub"), and for every page: the reply
+    of [handle_cache] advertises the rules of [cpath q], the page that replaces it those of [rq_path (fst q)] *)
+Theorem wire_416_internal_route_v0_refuted :
+  (run_vary_wire_ov_v0 wire416_route_history = wire416_route_out_v0 /\ run_vary_wire wire416_route_history = wire416_route_out) /\
+  (forall rules_of err416_body q, err416_body <> [] ->
+     let rp := finishV (fun _ _ => None) (fst q) (mkFat 200 [] (B "page") SP_FULL true) (own_tuple rules_of (lreq q)) true true in
+     exists w,
+       send_v rules_of (fun _ hs => hs) err416_body true false q (Some (Some (100, 201))) rp = Ok w /\ w_body w <> [] /\
+       assoc (B "vary") (rp_headers rp) = Some (vary_text (rules_of (cpath q))) /\
+       assoc (B "vary") (w_headers w) = Some (vary_text (rules_of (rq_path (fst q))))).
+Proof. exact (conj wire416_route_v0 send_ov_v0_wrong_rules). Qed.
 
 (** (7) before the repair 832d735 (model component vary.run_ims_v0; observed on the real code then) "a 304 is only
     sent to a request whose own transformed tuple is stored" was false: the second request's tuple was never computed —
@@ -354,9 +433,9 @@ Proof. exact (conj wire416_v0 send_v0_drops_vary). Qed.
 Theorem not_modified_only_for_stored_variant_v0_refuted :
   (run_vary_ims_v0 ims_history = ims_history_out_v0 /\ run_vary ims_history = ims_history_out) /\
   (forall hstate cache_on ims_on parse_ims sanitize_ok prime negotiate c (hs : hstate) now r0 k e c1,
-     cache_on = true /\ ims_on = true /\ vlookup (prime r0) c now = ((k, Some e), c1) /\
-     sanitize_ok r0 = true /\ get_or_head (rq_method (prime r0)) = true /\
-     (exists v t, header (B "if-modified-since") (prime r0) = Some v /\ parse_ims v = Some t /\ ims_fresh t (ve_created e) = true) ->
+     cache_on = true /\ ims_on = true /\ vlookup (lreq (prime r0)) c now = ((k, Some e), c1) /\
+     sanitize_ok r0 = true /\ get_or_head (rq_method (lreq (prime r0))) = true /\
+     (exists v t, header (B "if-modified-since") (lreq (prime r0)) = Some v /\ parse_ims v = Some t /\ ims_fresh t (ve_created e) = true) ->
      serveV_phase1_v0 hstate cache_on ims_on parse_ims sanitize_ok prime negotiate (c, hs) now r0
      = Ok (inl ((c1, hs), {| rp_status := 304; rp_headers := []; rp_body := []; rp_identity := []; rp_last_modified := ims_on;
                              rp_from_cache := true |}, [], []))).
@@ -409,15 +488,15 @@ Example ex_ambiguous_tuples_differ :
 Proof. repeat split; vm_compute; reflexivity. Qed.
 
 (** the hypotheses of [vary_refines_map] / [computed_once_per_tuple] are satisfiable *)
-Definition ex_compute (hs : N) (r : request) (ok : bool) : fat * N * list bytes :=
+Definition ex_compute (hs : N) (r : routed) (ok : bool) : fat * N * list bytes :=
   (mkFat 200 [] (B "page") SP_FULL true, hs + 1, [B "h"]).
 Example ex_always_stored : always_stored N ex_compute.
 Proof.
   intros hs r GH. cbn [ex_compute fst]. unfold may_store, wants_cache. rewrite GH. vm_compute. repeat split.
 Qed.
 Example ex_ops_ok :
-  Forall (op_ok false (fun _ => true) (fun r => r)) [OReq (ex_req [(B "x-a", B "b")]); OReq (ex_req [])]
-  /\ Forall (gh_req (fun r => r)) [OReq (ex_req [(B "x-a", B "b")]); OReq (ex_req [])].
+  Forall (op_ok false (fun _ => true) no_route) [OReq (ex_req [(B "x-a", B "b")]); OReq (ex_req [])]
+  /\ Forall (gh_req no_route) [OReq (ex_req [(B "x-a", B "b")]); OReq (ex_req [])].
 Proof. split; repeat constructor. Qed.
 
 (** the vary header equation on a concrete reply *)
@@ -429,9 +508,9 @@ Proof. vm_compute. reflexivity. Qed.
 
 (** the hypotheses of [vector_refines_assoc_list] / [vary_cache_transparent] are satisfiable
     (a handler that ignores everything but the sanitize verdict) *)
-Definition ex_cf (r : request) (ok : bool) : fat :=
+Definition ex_cf (r : routed) (ok : bool) : fat :=
   if ok then mkFat 200 [] (B "page") SP_FULL true else mkFat 400 [] (B "bad") SP_NONE true.
-Definition ex_compute2 (hs : N) (r : request) (ok : bool) : fat * N * list bytes := (ex_cf r ok, hs + 1, []).
+Definition ex_compute2 (hs : N) (r : routed) (ok : bool) : fat * N * list bytes := (ex_cf r ok, hs + 1, []).
 Example ex_contract :
   (forall hs r ok, assoc (B "vary") (f_headers (fst (fst (ex_compute2 hs r ok)))) = None) /\
   (forall hs r ok, fst (fst (ex_compute2 hs r ok)) = ex_cf r ok) /\
@@ -452,9 +531,9 @@ Definition ex_reply : reply :=
   finishV (fun _ _ => None) (ex_req []) (mkFat 200 [] (B "page") SP_FULL true) (own_tuple (fun _ => ex_rules) (ex_req [])) true true.
 Example ex_replaced :
   replaced (Some (Some (100, 201))) ex_reply /\ ~ replaced (Some (Some (1, 3))) ex_reply /\
-  (exists w, send_v (fun _ => ex_rules) (fun _ hs => hs) (B "ERR") true (ex_req []) (Some (Some (100, 201))) ex_reply = Ok w /\
+  (exists w, send_v (fun _ => ex_rules) (fun _ hs => hs) (B "ERR") true true (no_route (ex_req [])) (Some (Some (100, 201))) ex_reply = Ok w /\
              w_status w = 416 /\ assoc (B "vary") (w_headers w) = Some (B "accept-encoding, range, x-a, X-Up, x bad")) /\
-  (exists w, send_v (fun _ => ex_rules) (fun _ hs => hs) (B "ERR") true (ex_req []) (Some (Some (1, 3))) ex_reply = Ok w /\
+  (exists w, send_v (fun _ => ex_rules) (fun _ hs => hs) (B "ERR") true true (no_route (ex_req [])) (Some (Some (1, 3))) ex_reply = Ok w /\
              w_status w = 206 /\ w_body w = B "ag" /\
              assoc (B "vary") (w_headers w) = Some (B "accept-encoding, range, x-a, X-Up, x bad")).
 Proof.
@@ -465,7 +544,7 @@ Qed.
 
 (** a 304 with a range that would start after its (empty) body: sent as it is *)
 Example ex_not_modified_range :
-  send_v (fun _ => ex_rules) (fun _ hs => hs) (B "ERR") true (ex_req []) (Some (Some (0, 2)))
+  send_v (fun _ => ex_rules) (fun _ hs => hs) (B "ERR") true true (no_route (ex_req [])) (Some (Some (0, 2)))
          {| rp_status := 304; rp_headers := []; rp_body := []; rp_identity := []; rp_last_modified := true; rp_from_cache := true |}
   = Ok (mkW 304 [] [] true).
 Proof. reflexivity. Qed.
@@ -479,13 +558,13 @@ Proof.
   intros k e H. cbn [ex_cache pc_find] in H. destruct (key_eqb k (KPath (B "/v"))) eqn:E; [|discriminate].
   inversion H; subst e; clear H. apply key_eqb_eq in E. subst k.
   split; [repeat constructor|]. split; [discriminate|]. split; [reflexivity|].
-  intros f hc [Eq | []]. inversion Eq; subst. exists (ex_req []). split; [exists 0, true; reflexivity|]. split; reflexivity.
+  intros f hc [Eq | []]. inversion Eq; subst. exists (no_route (ex_req [])). split; [exists 0, true; reflexivity|]. split; reflexivity.
 Qed.
 (** a request whose own tuple (x-a class "hi") is not stored meets the date condition of the 304 (before the repair
     it was answered 304; now it is computed: second clause of [not_modified_only_for_stored_variant]) ... *)
 Example ex_ims_hit :
   let r0 := ex_req [(B "if-modified-since", B "@T+100"); (B "x-a", B "zebra")] in
-  ims_hit true true parse_ims_fix (fun _ => true) (fun r => r) ex_cache 500 r0 (KPath (B "/v"))
+  ims_hit true true parse_ims_fix (fun _ => true) no_route ex_cache 500 r0 (KPath (B "/v"))
           (mkVE (mkVaried ex_rules [ (mkFat 200 [] (B "page") SP_FULL true, headers_for_request ex_rules (ex_req [])) ]) 500 None) ex_cache
   /\ exists pos hc, vr_get_by_request (mkVaried ex_rules [ (mkFat 200 [] (B "page") SP_FULL true, headers_for_request ex_rules (ex_req [])) ]) r0
                     = Ok (Miss pos hc).
@@ -516,3 +595,32 @@ Proof.
     split; [right; reflexivity|]. split; [reflexivity|]. split; [vm_compute; reflexivity|]. cbn [ve_created]. lia.
   - split; [cbn; lia | cbn; lia].
 Qed.
+
+(** ---- an internal route: a Prime answers the public /hi with /./lang; the page is looked up and cached under /./lang, its
+    transformed list is the one the rules of /./lang (not those of /hi) make of the request's headers, and that is what the
+    [vary] header lists — also on the 416 page that replaces the reply ---- *)
+Definition ex_routed : routed :=
+  (mkReq M_GET (B "/hi") (Some (B "q=1")) [(B "accept-language", B "DE"); (B "x-pub", B "Y")] 1, Some (B "/./lang", None)).
+Definition ex_route_rules (p : bytes) : list rule :=
+  if beq p (B "/./lang") then [mkRule (B "accept-language") (xform 0) (B "en")]
+  else if beq p (B "/hi") then [mkRule (B "x-pub") (xform 0) (B "p")] else [].
+Example ex_route :
+  cpath ex_routed = B "/./lang" /\ key_p (lreq ex_routed) = KPath (B "/./lang") /\
+  own_tuple ex_route_rules (lreq ex_routed) = [(B "accept-language", B "de")] /\
+  own_tuple ex_route_rules (fst ex_routed) = [(B "x-pub", B "y")] /\
+  (let rp := finishV (fun _ _ => None) (fst ex_routed) (mkFat 200 [] (B "page") SP_FULL true)
+                     (own_tuple ex_route_rules (lreq ex_routed)) true true in
+   assoc (B "vary") (rp_headers rp) = Some (B "accept-encoding, range, accept-language") /\
+   exists w, send_v ex_route_rules (fun _ hs => hs) (B "ERR") true true ex_routed (Some (Some (100, 201))) rp = Ok w /\
+             w_status w = 416 /\ assoc (B "vary") (w_headers w) = Some (B "accept-encoding, range, accept-language")).
+Proof.
+  repeat split; try (vm_compute; reflexivity).
+  eexists. split; [vm_compute; reflexivity|]. split; vm_compute; reflexivity.
+Qed.
+
+(** a rule header that is a piece of the fixed part is listed like any other *)
+Example ex_overlapping_name :
+  assoc (B "vary") (rp_headers (finishV (fun _ _ => None) (ex_req []) (mkFat 200 [] (B "page") SP_FULL true)
+          (own_tuple (fun _ => [mkRule (B "accept") (xform 0) (B "d"); mkRule (B "range") (xform 0) (B "d")]) (ex_req [])) true true))
+  = Some (B "accept-encoding, range, accept, range").
+Proof. vm_compute. reflexivity. Qed.
